@@ -2,7 +2,8 @@
 import ast
 
 from ..model import AnalysisError
-from ..lib import FV, decode_new, decode_call, phi_members, is_sym, is_const, is_str, strip_stores, stores_of
+from ..lib import (FV, decode_new, decode_call, phi_members, is_sym, is_const, is_str, strip_stores, stores_of, cond_equiv,
+                   path_term)
 from ..cfg import always_raises, walk_stmts
 from . import common as cm
 from . import geom
@@ -99,6 +100,7 @@ def run(chk):
     d4_dtypes(chk, repo)
     d5_legacy(chk, repo)
     d6_region_kwargs(chk, repo)
+    d7_conditions(chk, repo)
     chk.trust("h5py stores attribute / dataset values of numpy and str type and returns them as written; assigning into a dataset "
               "casts to the dataset's declared dtype")
     chk.assume("bit-identical values and h5py's own behaviour are not decided; a field's dtype slot is not restored (an int field "
@@ -408,3 +410,92 @@ def d6_region_kwargs(chk, repo):
             ok = has_guard and rebinding
     chk.ob("region.Region.__init__::pmin-pmax-keywords", ok, "C10.D6",
            "with pmin/pmax keywords: raise unless pmin < pmax element-wise, then p1, p2 = pmin, pmax", v.f)
+
+
+# ------------------------------------------------------------------ D7
+def d7_conditions(chk, repo):
+    chk.rule("C10.D7", "conditions and shapes of the layout: the subregion datasets exist exactly when there are subregions, one "
+                       "row of 2*ndim numbers each; the reader rebuilds subregions exactly when the dataset exists; the None "
+                       "sentinel of the labels is written for None and decoded for the string 'None' only; the file type and "
+                       "version gates refuse foreign files, not our own; the legacy mesh is built from both corners and n")
+    v = FV(repo, H5 + "_MeshIO_HDF5._h5_save", self_type=MESH)
+    n_sub = v.spec("len(self.subregions)")
+    for call, st in v.calls():
+        if isinstance(call.func, ast.Attribute) and call.func.attr == "create_dataset" and call.args:
+            k = v.term(call.args[0], at=st)
+            if is_str(v.ctx, k, "subregions") or is_str(v.ctx, k, "subregion_names"):
+                key = "subregions" if is_str(v.ctx, k, "subregions") else "subregion_names"
+                ok = cond_equiv(v, path_term(v, st), v.spec("len(self.subregions) > 0"), [n_sub])
+                chk.ob(f"io.hdf5._MeshIO_HDF5._h5_save::{key}::iff-subregions-exist", ok, "C10.D7",
+                       f"dataset '{key}' is created under {v.show(path_term(v, st))}; expected: at least one subregion "
+                       "(empty tables cannot be typed, and a single subregion must not be lost)", v.f, st)
+                if key == "subregions":
+                    shp = v.term(call.args[1], at=st) if len(call.args) > 1 else None
+                    oks = shp is not None and v.eq(shp, v.spec("(len(self.subregions), 2 * self.region.ndim)"))
+                    chk.ob("io.hdf5._MeshIO_HDF5._h5_save::subregions::shape", oks, "C10.D7",
+                           f"shape {v.show(shp) if shp is not None else None}; expected one row per subregion holding pmin and pmax", v.f, st)
+    r = FV(repo, H5 + "_MeshIO_HDF5._h5_load", self_type=MESH)
+    for st in r.stmts():
+        if isinstance(st, ast.Assign) and isinstance(st.value, ast.DictComp):
+            ok = cond_equiv(r, path_term(r, st), r.spec("'subregions' in h5_mesh"))
+            chk.ob("io.hdf5._MeshIO_HDF5._h5_load::subregions-iff-dataset", ok, "C10.D7",
+                   f"subregions are rebuilt under {r.show(path_term(r, st))}; expected: the file has a 'subregions' dataset", r.f, st)
+    # labels sentinel: written for None, decoded for 'None'
+    w = FV(repo, H5 + "_FieldIO_HDF5._h5_save_structure", self_type=FIELD)
+    okw = False
+    for st in w.stmts():
+        if isinstance(st, ast.Assign) and isinstance(st.targets[0], ast.Subscript):
+            idx = w.ev._index(st.targets[0].slice, w.cfg.node(st), None)
+            if is_str(w.ctx, idx, "vdims"):
+                okw = w.eq(w.term(st.value, at=st), w.spec("self.vdims if self.vdims is not None else 'None'"))
+                wst = st
+    chk.ob("io.hdf5._h5_save_structure::labels-sentinel-for-none", okw, "C10.D7",
+           "attrs['vdims'] must be the labels, and the word 'None' exactly when there are none", w.f)
+    ld = FV(repo, H5 + "_FieldIO_HDF5._h5_load_field", self_type=FIELD)
+    for st in ld.stmts():
+        if isinstance(st, ast.If) and any(isinstance(s2, ast.Assign) and isinstance(s2.value, ast.Constant) and s2.value.value is None
+                                          for s2 in st.body):
+            ct = ld.ev.term(st.test, at=st)
+            if any(hd == ("str", "vdims") for hd in ld.ctx.heads_in(ct)):
+                raw = ld.spec("h5_field.attrs['vdims']")
+                want = ld.spec("isinstance(x, str) and x == 'None'", env={"x": raw})
+                chk.ob("io.hdf5._h5_load_field::labels-sentinel-decoded-for-the-word-only", cond_equiv(ld, ct, want), "C10.D7",
+                       f"labels become None under {ld.show(ct)}; expected: the stored value is the string 'None' (label arrays "
+                       "must not be compared with a string)", ld.f, st)
+    # gates of the top-level reader
+    f = FV(repo, H5 + "_FieldIO_HDF5._from_hdf5", self_type=FIELD)
+    gates = 0
+    for rs, name in f.raises():
+        par = f.cfg.parent.get(id(rs))
+        if par and isinstance(par[0], ast.If) and par[1] == "body":
+            ct = f.ev.term(par[0].test, at=par[0])
+            if any(hd == ("str", "type") for hd in f.ctx.heads_in(ct)):
+                gates += 1
+                hd = f.ctx.head_of(ct)
+                ok = bool(hd and hd == ("cmp", "ne") and any(is_str(f.ctx, x, "discretisedfield.Field") for x in f.ctx.args_of(ct)))
+                chk.ob("io.hdf5._from_hdf5::type-gate", ok, "C10.D7",
+                       f"`{f.src(par[0].test)}` raises: files whose type attribute is NOT 'discretisedfield.Field' are refused", f.f, par[0])
+    for st in f.stmts():
+        if isinstance(st, ast.Assert):
+            ct = f.ev.term(st.test, at=st)
+            if any(hd == ("str", "ubermag-hdf5-file-version") for hd in f.ctx.heads_in(ct)):
+                gates += 1
+                hd = f.ctx.head_of(ct)
+                ok = bool(hd and hd[0] == "cmp" and hd[1] in ("in", "eq"))
+                lst = f.ctx.args_of(ct)[1] if ok else None
+                ok = ok and "0.1" in f.show(lst)
+                chk.ob("io.hdf5._from_hdf5::version-gate", ok, "C10.D7",
+                       f"`{f.src(st.test)}`: the version the writer emits ('0.1') must be accepted", f.f, st)
+    wv = FV(repo, H5 + "_FieldIO_HDF5._to_hdf5", self_type=FIELD)
+    # legacy mesh
+    lg = FV(repo, H5 + "_FieldIO_HDF5._h5_legacy_load_field", self_type=FIELD)
+    ms = lg.ctor_sites(MESH)
+    chk.require(ms, "legacy reader: no Mesh construction")
+    for i, sm in enumerate(ms):
+        reg = sm.args.get("region")
+        d = decode_new(repo, lg.ctx, reg) if reg is not None else None
+        ok = bool(d and d[0] == REGION and lg.eq(d[1].get("p1"), lg.spec("tuple(h5_file['field/mesh/region/p1'])")) and
+                  lg.eq(d[1].get("p2"), lg.spec("tuple(h5_file['field/mesh/region/p2'])"))) and \
+            sm.args.get("n") is not None and lg.eq(sm.args["n"], lg.spec("np.array(h5_file['field/mesh/n']).tolist()"))
+        chk.ob(f"io.hdf5._h5_legacy_load_field::mesh#{i}", ok, "C10.D7",
+               f"`{lg.src(sm.call)}`: the legacy mesh is Region(p1, p2) of the stored corners with the stored n", lg.f, sm.call)
